@@ -2,7 +2,8 @@ import Revm.Util.Hex
 import Revm.Model.Collision
 /-! `collision <kind> <spec_u8> <layer> <code 0|1> <nonce hex> <storage 0|1> <balance hex> [<warmth>]`
 → `<class> allgas=<0|1> changed=<0|1>`; the harness transfers value 1 and probes slot 1.
-`warmth` (default `cold`) = how the harness makes the target warm before the creation reaches it. -/
+`warmth` (default `cold`) = how the harness makes the target warm before the creation reaches it.
+An optional 10th token (after `cold`) is the history of the target within the transaction. -/
 namespace Driver.Collision
 open Revm Revm.Hex Revm.Model.Db Revm.Model.Collision
 
@@ -88,8 +89,53 @@ def handleW (toks : List String) (warmth : String) : String :=
     | _, _, _, _, _ => "bad-op"
   | _ => "bad-op"
 
+/-- hash of the runtime code the harness' init code deploys for `created` (`00`) / `destroyed` (`33ff`):
+any value ≠ KECCAK_EMPTY, the collision is decided by the nonce -/
+def deployedHash (h : String) : Nat := if h = "destroyed" then 0x33ff else someCodeHash
+
+/-- 10-token lines: `… cold <history>`, history = untouched | created | destroyed | funded | hsonly -/
+def handleH (toks : List String) (history : String) : String :=
+  match toks with
+  | [kind, spec, layer, code, nonce, storage, bal] =>
+    if history = "untouched" then handleW toks "cold" else
+    match spec.toNat?, parseBool? code, parseHex? nonce, parseBool? storage, parseHex? bal with
+    | some spec, some code, some nonce, some storage, some bal =>
+      if !(kind = "tx" || kind = "create" || kind = "create2") then "bad-op" else
+      if spec > 19 && spec != 255 then "bad-op" else
+      if kind = "create2" && spec < 7 then "bad-op" else
+      if nonce ≥ U64 || bal ≥ W then "bad-op" else
+      if !(history = "created" || history = "destroyed" || history = "funded" || history = "hsonly") then "bad-op" else
+      if (history = "created" || history = "destroyed") && kind != "create2" then "bad-op" else
+      if history = "funded" && (kind = "tx" || bal ≥ 2^255) then "bad-op" else
+      if history = "hsonly" && !(!code && nonce = 0 && storage && bal = 0) then "bad-op" else
+      let info : Option Info :=
+        if history = "hsonly" then none   -- the database reports storage for an address whose `basic` is `None`
+        else if !code && nonce = 0 && !storage && bal = 0 then none
+        else some ⟨bal, nonce, if code then someCodeHash else KECCAK_EMPTY, none⟩
+      match mkDb layer info storage with
+      | none => "bad-op"
+      | some db =>
+        let h : History := match history with
+          | "created" => .createdAlive (deployedHash history)
+          | "destroyed" => .createdDestroyed (deployedHash history)
+          | "funded" => .funded 1
+          | _ => .untouched
+        let r := makeCreateFrameH db targetAddr h 1 1000000 (spec ≥ 5)
+        let clsOf (x : Result) : String := match x with
+          | .collision => "collision" | .overflowPayment => "other:OverflowPayment" | .frame => "created"
+        match r.first with
+        | some .collision => "other:first-collision"
+        | some .overflowPayment => "other:first-other:OverflowPayment"
+        | _ =>
+          let o := r.outcome
+          s!"{clsOf o.result} allgas={boolStr (o.gasLost == some 1000000)} changed={boolStr (o.target != r.entry.target)}"
+    | _, _, _, _, _ => "bad-op"
+  | _ => "bad-op"
+
 def handle (toks : List String) : String :=
   match toks with
+  | [kind, spec, layer, code, nonce, storage, bal, "cold", history] =>
+    handleH [kind, spec, layer, code, nonce, storage, bal] history
   | [kind, spec, layer, code, nonce, storage, bal] => handleW [kind, spec, layer, code, nonce, storage, bal] "cold"
   | [kind, spec, layer, code, nonce, storage, bal, warmth] => handleW [kind, spec, layer, code, nonce, storage, bal] warmth
   | _ => "bad-op"
